@@ -462,6 +462,10 @@ func finishScalar(t *rapid.T, c *ScalarCase) {
 			}
 		}
 	}
+	if c.Carrier == "rm" && rapid.IntRange(0, 2).Draw(t, "underTag") == 0 {
+		// the field has a declared rule (a few fixed texts: every text is a new synthesised type) that the call's rule map replaces
+		c.Under = rapid.SampledFrom(underTags).Draw(t, "underRule")
+	}
 	c.Plus = rapid.Bool().Draw(t, "plusForBlank")
 	c.Bare = rapid.Bool().Draw(t, "bareWhenEmpty")
 	if rapid.IntRange(0, 3).Draw(t, "otherKey") == 2 {
@@ -481,6 +485,9 @@ func finishScalar(t *rapid.T, c *ScalarCase) {
 		c.Lead = "plain"
 	}
 }
+
+// underTags: declared rules below a rule map (ScalarCase.Under): extension rules only, a demand, both.
+var underTags = []string{"to=2~10", "ge=5|under msg", "required|under msg", "phone,required", "in=(zz)", "noeq=77777"}
 
 // genAgain: now and then our URL parameter occurs more than once.
 func genAgain(t *rapid.T, c *ScalarCase) {
